@@ -514,8 +514,11 @@ class CompositeActiveTagValueProvider(ActiveTagValueProvider):
                 if value is Unknown:
                     continue
 
-                # -- FOUND CATEGORY:
-                self.data[category] = value
+                # -- FOUND CATEGORY: Remember its value-provider (not its value),
+                #    a value-provider may re-evaluate a lazy value each time.
+                def value_func(value_provider=value_provider):
+                    return self.use_value(value_provider.get(category))
+                self.data[category] = value_func
                 break
             # -- FOUND-CATEGORY or NOT-FOUND:
             if value is Unknown:
